@@ -18,8 +18,8 @@ SP == 32
 NormValue(v) ==
     LET nonsp == {i \in 1..Len(v) : v[i] # SP}
     IN IF nonsp = {} THEN <<>>
-       ELSE LET lo   == CHOOSE i \in nonsp : \A k \in nonsp : i <= k
-                hi   == CHOOSE i \in nonsp : \A k \in nonsp : i >= k
+       ELSE LET lo   == Min(nonsp)
+                hi   == Max(nonsp)
                 idxs == [k \in 1..(hi - lo + 1) |-> lo + k - 1]
                 kept == SelectSeq(idxs, LAMBDA i : v[i] # SP \/ v[i-1] # SP)
             IN [k \in 1..Len(kept) |-> v[kept[k]]]
